@@ -344,6 +344,7 @@ fn fresh_process_ops_phase(opts: &Opts) -> runner::ExtraPhase {
         }
         for client in sc.clients.iter() {
             sample.extend(client.iter().filter(|o| matches!(o, checks::c18::Op::WithIdentityGenerator { .. })).take(2));
+            sample.extend(client.iter().filter(|o| matches!(o, checks::c18::Op::UnderOwnGenerators { .. })).take(4));
         }
         sample.extend(near_twin_pairs(&sc));
         {
